@@ -398,7 +398,7 @@ shadow main { assert (== (main) 0) }
 
 # several small functions, recursion, holes in shadow blocks, missing-return shapes
 B4 = '''fn fact(n: int) -> int {
-    if (<= n 1) {
+    if <<cond-if:bool|(<= n 1)>> {
         return 1
     }
 @ret:after-if@    return (* n (fact (- n 1)))
@@ -479,6 +479,27 @@ fn greet(a: string) -> string {
     return <<return:string|(+ "hi " a)>>
 }
 shadow greet { assert (== (greet "x") "hi x") }
+fn idle(a: int, s: string, t: bool) -> int {
+    @@ fn-body ret=int par=a:int,s:string,t:bool
+    let i1: int = <<let:int|(* a 3)>>
+    let i2: bool = <<let:bool|(or t (> a 1))>>
+    let i3: string = <<let:string|(+ s s)>>
+    let mut j1: int = 0
+    let mut j2: bool = true
+    set j1 <<set:int|(+ i1 a)>>
+    set j2 <<set:bool|(not i2)>>
+    if <<cond-if:bool|(and i2 j2)>> {
+        (println <<arg-println:string|i3>>)
+        return <<return:int|(+ j1 1)>>
+    }
+    (println <<arg-println:int|j1>>)
+    let k1: int = (i2i <<arg-user@let:int|j1>>)
+    let k2: int = (abs <<arg-builtin@let:int|k1>>)
+    let k3: int = (- <<operand@let:int|k2>> 1)
+    @@ fn-body ret=int imm=i1:int,i2:bool,i3:string par=a:int,s:string,t:bool
+    return <<return:int|k3>>
+}
+shadow idle { assert true }
 fn show(a: int) -> void {
     @@ fn-body ret=void par=a:int
     let d: int = (+ a 1)
@@ -833,8 +854,8 @@ def r_scope_block(T, D):
            ("after while-block", ["let mut zcnt: int = 0", "while (< zcnt 1) {", "    let zblk: %s = %s" % (T, v),
                                   "    set zcnt (+ zcnt 1)", "}"], "zblk"),
            ("after else-block", ["if false {", "    set gmut 1", "} else {", "    let zblk: %s = %s" % (T, v), "}"], "zblk")]
-    if T == "int":
-        out.append(("for variable after loop", ["for zblk in (range 0 2) {", "    set gmut (+ gmut zblk)", "}"], "zblk"))
+    # NOT in the catalogue: a `for` variable used after its loop.  SPEC 5.4 defines `for i in (range a b) {..}` as
+    # equivalent to `let mut i: int = a` + while, which leaves i visible afterwards, so that use is not certainly ill-formed.
     return out
 
 
@@ -1509,7 +1530,8 @@ def run(ctx):
                 for m in mutants:
                     ln, new, old = mutated_line(m.base, m.mut)
                     json.dump({"rule": m.rule, "context": m.context, "base": m.base.name, "variant": m.variant, "where": m.where,
-                               "mut": m.mut, "kind": m.base.kind, "line": ln, "new": new, "old": old,
+                               "mut": m.mut, "kind": m.base.kind, "line": ln,
+                               "files": m.base.files(m.mut) if m.base.kind == "gen" and any(o.cls in BAD for o in m.obs) else None, "new": new, "old": old,
                                "obs": [{"tool": o.tool, "cls": o.cls, "stage": o.stage, "rc": o.rc, "sig": o.sig, "art": o.artifact,
                                         "marker": o.marker, "diag": o.diag[:3], "err": o.err[-600:]} for o in m.obs]}, f)
                     f.write("\n")
